@@ -33,7 +33,7 @@ vars == <<lines, lastEol, code, fmt, esc, path>>
 Init == /\ lines \in UNION {[1..n -> Classes] : n \in 0..K}
         /\ lastEol \in BOOLEAN /\ (lines = <<>> => lastEol)
         /\ code \in {0, 3} /\ fmt \in {"md", "cram"} /\ esc \in {"ascii", "unicode"}
-        /\ path \in {"create", "update_output", "update_code"}
+        /\ path \in {"create", "update_output", "update_code", "convert"}
 Next == UNCHANGED vars
 Spec == Init /\ [][Next]_vars
 
